@@ -221,7 +221,7 @@ fn kernel_unit(ctx: &Ctx, ki: usize, chunk: u64, n: u64, run_id: u64) -> UnitOut
     out.per_window.insert(format!("kernel/{}", k.name), trace_json(&bt));
     for r in (chunk * CHUNK)..((chunk + 1) * CHUNK).min(n) {
         let mut p = Prng::for_run(ctx.seed, &format!("c14-kernel-{}", k.name), r);
-        let class = if r < 7 { r as u32 } else if r % 5 == 0 { 5 } else { 0 };
+        let class = if r < 9 { r as u32 } else if r % 5 == 0 { 5 } else if r % 5 == 1 { 8 } else if r % 11 == 2 { 7 } else { 0 };
         (k.gen)(&mut p, class, &mut inp);
         out.evals += 1;
         let t = (k.probe)(&inp, &mut outb, false);
@@ -317,7 +317,7 @@ fn run(ctx: &Ctx) -> i32 {
         level: "exploration",
         evaluations: evals,
         signatures: sigs.into_iter().collect(),
-        rule: "Sentence 1: per parameter set, dudect_keygen_sign_with_rng is executed under an RNG device that replays 64 seeded bytes (uniform, all-00, all-FF, single-bit, xi fixed/rnd varied and vice versa, one bit away from the baseline) on a fixed public message; sentence 2: each secret-handling kernel is driven alone through the verif-hooks wrappers on seeded in-range coefficient vectors (uniform, all-min, all-max, alternating, zero, sprinkled extremes, small). Every window is one #[inline(never)] probe; compiler-inserted SanitizerCoverage probes record every control-flow edge and every load/store address; the (edge hash, edge count, address hash, address count) of each run must equal the baseline run of the same worker unit. A case is distinct by (window, stream or value class); it is non-trivial because the baseline window recorded a non-empty trace (checked).".into(),
+        rule: "Sentence 1: per parameter set, dudect_keygen_sign_with_rng is executed under an RNG device that replays 64 seeded bytes (uniform, all-00, all-FF, single-bit, xi fixed/rnd varied and vice versa, one bit away from the baseline) on a fixed public message; sentence 2: each secret-handling kernel is driven alone through the verif-hooks wrappers on seeded in-range coefficient vectors (uniform, all-min, all-max, alternating, zero, sprinkled extremes and domain boundary values such as 0, +-(q-1)/2, +-q, multiples of gamma2, small, sparse ternary, one boundary value in a uniform polynomial). Every window is one #[inline(never)] probe; compiler-inserted SanitizerCoverage probes record every control-flow edge and every load/store address; the (edge hash, edge count, address hash, address count) of each run must equal the baseline run of the same worker unit. A case is distinct by (window, stream or value class); it is non-trivial because the baseline window recorded a non-empty trace (checked).".into(),
         samples,
         exhaustive: false,
         extra: json!({
